@@ -234,7 +234,7 @@ class Collection(AbstractPriorModel):
                 collection[key] = value.gaussian_prior_model_for_arguments(arguments)
             elif isinstance(value, Prior):
                 collection[key] = arguments[value]
-            elif isinstance(value, float):
+            else:
                 collection[key] = value
 
         collection.item_number = self.item_number
@@ -294,7 +294,7 @@ class Collection(AbstractPriorModel):
                 collection[key] = value.gaussian_prior_model_for_arguments(arguments)
             elif isinstance(value, Prior):
                 collection[key] = arguments[value]
-            elif isinstance(value, float):
+            else:
                 collection[key] = value
 
         collection.item_number = self.item_number
